@@ -27,13 +27,14 @@ BINOP = CheckFn("c08-binop", _M, "c08_binop_check", Tup(Nat, Nat, W, W, W))
 STAR = CheckFn("c08-star", _M, "c08_star_check", Tup(Nat, W, W))
 FROMINT = CheckFn("c08-fromint", _M, "c08_from_int_check", Tup(Nat, Nat, W))
 SUM = CheckFn("c08-sum", _M, "c08_sum_check", Tup(Nat, List(W), W))
-LAW = CheckFn("c08-law", _M, "c08_law_check", Tup(Nat, Nat, Tup(W, W, W), Tup(W, W)))
+LAW = CheckFn("c08-law", _M, "c08_law_check_cls", Tup(Nat, Nat, Tup(W, W, W), Tup(W, W)))   # 100 * class + verdict
+LAW1 = CheckFn("c08-law1", _M, "c08_law_check", Tup(Nat, Nat, Tup(W, W, W), Tup(W, W)))        # verdict alone (replay)
 LAWCLS = CheckFn("c08-lawclass", _M, "c08_law_class", Tup(Nat, Nat, Tup(W, W, W)))
 LEAST = CheckFn("c08-least", _M, "c08_least_check", Tup(Nat, W, W, W))   # (sr, x, y, star(x))
 LOG = CheckFn("c08-log", _M, "c08_log_check", Tup(Nat, List(W), LR))
 LOGLAW = CheckFn("c08-loglaw", _M, "c08_log_law_check", Tup(Nat, Tup(W, W, W), Tup(LR, LR)))
 BOOLC = CheckFn("c08-bool", _M, "c08_bool_check", Tup(Nat, Nat, List(Bool), Bool))
-CHECKFNS = [BINOP, STAR, FROMINT, SUM, LAW, LAWCLS, LEAST, LOG, LOGLAW, BOOLC]
+CHECKFNS = [BINOP, STAR, FROMINT, SUM, LAW, LAW1, LAWCLS, LEAST, LOG, LOGLAW, BOOLC]
 
 class _F64(Ty):
     """binary64 value as a Coq primitive-float literal (hexadecimal, exact); never extracted"""
@@ -86,9 +87,11 @@ VIT_GRID = [-INF, -1e308, -3.0, -2.0, -1 - U, -1.0, -5e-324, 0.0, 5e-324, 2.0 **
 LOG_GRID = [-INF, -744.0, -50.0, -3.0, -1 - U, -1.0, math.log(0.5), -(2.0 ** -30), -5e-324, 0.0,
             2.0 ** -30, math.log(2), math.log(3), 1.0, 3.0, 50.0, 700.0, INF]
 LOG_BIG = [-1e308, 1e308]            # mul only
-REAL_TRI = [0.0, 5e-324, 0.5, 1 - 2.0 ** -53, 1.0, 1 + U, 2.0, 3.0, 1e308, INF]
-VIT_TRI = [-INF, -1e308, -3.0, -1.0, -5e-324, 0.0, 5e-324, 1.0, 1 + U, 3.0, 1e308, INF]
-LOG_TRI = [-INF, -50.0, -1.0, math.log(0.5), 0.0, math.log(2), 1.0, 50.0, INF]
+REAL_TRI = [0.0, 5e-324, 0.5, 1 - 2.0 ** -53, 1.0, 1 + U, 2.0, 1e308, INF]
+VIT_TRI = [-INF, -1e308, -1.0, -5e-324, 0.0, 5e-324, 1 + U, 3.0, 1e308, INF]
+LOG_TRI = [-INF, -1.0, math.log(0.5), 0.0, math.log(2), 1.0, INF]
+# added in the thorough tier (besides seeded random values)
+_THOROUGH_EXTRA = dict(REAL_TRI=[3.0], VIT_TRI=[-3.0, 1.0], LOG_TRI=[-50.0, 50.0])
 
 _BASE_GRIDS = dict(REAL_GRID=list(REAL_GRID), VIT_GRID=list(VIT_GRID), LOG_GRID=list(LOG_GRID),
                    REAL_TRI=list(REAL_TRI), VIT_TRI=list(VIT_TRI), LOG_TRI=list(LOG_TRI))
@@ -97,14 +100,15 @@ def make_grids(tier, seed):
     (Real: positive; Viterbi: both signs; Log: log-space values in [-700, 700])"""
     g = {k: list(v) for k, v in _BASE_GRIDS.items()}
     if tier != "thorough": return g
+    for k, v in _THOROUGH_EXTRA.items(): g[k] += v
     rng = random.Random(seed * 1000003 + 8)
     def rpos(): return math.ldexp(1 + rng.random(), rng.choice([rng.randint(-1074, 1022), rng.randint(-60, 60)]))
-    g["REAL_GRID"] += [rpos() for _ in range(6)]
-    g["VIT_GRID"] += [rng.choice([-1, 1]) * rpos() for _ in range(6)]
-    g["LOG_GRID"] += [rng.uniform(-700, 700) for _ in range(3)] + [rng.uniform(-3, 3) for _ in range(3)]
-    g["REAL_TRI"] += [rpos() for _ in range(3)]
-    g["VIT_TRI"] += [rng.choice([-1, 1]) * rpos() for _ in range(3)]
-    g["LOG_TRI"] += [rng.uniform(-60, 60) for _ in range(2)]
+    g["REAL_GRID"] += [rpos() for _ in range(12)]
+    g["VIT_GRID"] += [rng.choice([-1, 1]) * rpos() for _ in range(12)]
+    g["LOG_GRID"] += [rng.uniform(-700, 700) for _ in range(5)] + [rng.uniform(-3, 3) for _ in range(5)]
+    g["REAL_TRI"] += [rpos() for _ in range(5)]
+    g["VIT_TRI"] += [rng.choice([-1, 1]) * rpos() for _ in range(5)]
+    g["LOG_TRI"] += [rng.uniform(-60, 60) for _ in range(4)]
     for k in g: g[k] = sorted(set(g[k]))
     return g
 
@@ -204,15 +208,17 @@ class Ctx:
         self.n_eval += n
 
 class Batch:
-    def __init__(self, kind, cf, vals, infos, describe, tag, coq_sample, post, chunk):
+    def __init__(self, kind, cf, vals, infos, describe, tag, coq_sample, post, chunk, mod=0):
         self.kind, self.cf, self.vals, self.infos, self.describe, self.tag = kind, cf, vals, infos, describe, tag
-        self.coq_sample, self.post, self.chunk = coq_sample, post, chunk
+        self.coq_sample, self.post, self.chunk, self.mod = coq_sample, post, chunk, mod
+    def verdict(self, code):
+        return code % self.mod if self.mod else code
         self.codes = None
 
-def _judge(ctx, cf, vals, infos, describe, tag, coq_sample=24, post=None, chunk=1500):
+def _judge(ctx, cf, vals, infos, describe, tag, coq_sample=24, post=None, chunk=1500, mod=0):
     """register a batch for the extracted model (bulk) + kernel re-evaluation of a sample and of
     every non-zero verdict; describe(info, code) -> Violation or None; post(codes) afterwards"""
-    if vals: ctx.batches.append(Batch("ocaml", cf, vals, infos, describe, tag, coq_sample, post, chunk))
+    if vals: ctx.batches.append(Batch("ocaml", cf, vals, infos, describe, tag, coq_sample, post, chunk, mod))
 
 def _judge_kernel(ctx, cf, vals, infos, describe, tag):
     """register a batch that is evaluated only inside Coq (vm_compute): the PrimFloat model"""
@@ -281,7 +287,7 @@ def dispatch(ctx):
                 ctx.kernel += len(cs)
         if dbg: print("  kernel sample done: %.1fs" % (time.time() - t0), file=sys.stderr, flush=True)
     # every non-zero verdict of the extracted code is confirmed inside the kernel
-    bad = [(b, [i for i, c in enumerate(b.codes) if c != 0][:40]) for b in obs]
+    bad = [(b, [i for i, c in enumerate(b.codes) if b.verdict(c) != 0][:40]) for b in obs]
     bad = [(b, ix) for b, ix in bad if ix]
     if bad:
         res = run_coq_multi([(b.cf, [b.vals[i] for i in ix]) for b, ix in bad], "c08-nonzero")
@@ -291,9 +297,10 @@ def dispatch(ctx):
                     raise BuildError("extracted code and vm_compute disagree on %s case %d: %d vs %d" % (b.cf.kind, i, b.codes[i], c))
             ctx.kernel += len(cs)
     for b in ctx.batches:
-        if dbg: print("  %s: %d cases, %d non-zero" % (b.tag, len(b.vals), sum(1 for c in b.codes if c)), file=sys.stderr, flush=True)
+        if dbg: print("  %s: %d cases, %d non-zero" % (b.tag, len(b.vals), sum(1 for c in b.codes if b.verdict(c))), file=sys.stderr, flush=True)
         if b.describe is not None:
             for info, c in zip(b.infos, b.codes):
+                c = b.verdict(c)
                 if c == 0: continue
                 v = b.describe(info, c)
                 if v is not None: ctx.viol.append(v)
@@ -517,13 +524,13 @@ def part_laws(ctx, SR):
                 lawvals.append((sr, n, (wire(x), wire(y), wire(z)), (wire(float(l)), wire(float(r)))))
                 lawinfo.append(dict(sr=sr, law=n, x=x, y=y, z=z, lhs=float(l), rhs=float(r), rep="0-dim"))
     cls_hist = {0: 0, 1: 0, 2: 0}
-    def post_classes(classes):
-        for v, info, cl in zip(lawvals, lawinfo, classes):
+    def post_classes(codes):
+        for info, code in zip(lawinfo, codes):
+            cl = code // 100
             cls_hist[cl] = cls_hist.get(cl, 0) + 1
             ctx.count("law/%s/%s" % (SRNAME[info["sr"]], ("exact", "tolerance", "skipped")[cl]))
             if cl != 2 and len({fbits(info["x"]), fbits(info["y"]), fbits(info["z"])}) >= min(2, LAW_ARITY[info["law"]]):
                 ctx.nontrivial.add(("law", info["sr"], info["law"], fbits(info["x"]), fbits(info["y"]), fbits(info["z"])))
-    _judge(ctx, LAWCLS, [(v[0], v[1], v[2]) for v in lawvals], lawinfo, None, "c08-lawclass", coq_sample=12, post=post_classes)
     def d_law(info, c):
         starlaw = info["law"] in (9, 12)
         key = None
@@ -534,7 +541,7 @@ def part_laws(ctx, SR):
                              corr="C08_laws_exact", call="law instance on the implementation", finding_key=key)
         return Violation(what + ": differs from the model of the code (code %d)" % c, case=dict(kind="law", **info),
                          corr="corr:c08_law_check", failing_input_found=False, finding_key=key)
-    _judge(ctx, LAW, lawvals, lawinfo, d_law, "c08-law", chunk=1600)
+    _judge(ctx, LAW, lawvals, lawinfo, d_law, "c08-law", chunk=1000, post=post_classes, mod=100)
     # Log laws, exp reading
     S = SR[1]
     lv, li = [], []
@@ -829,8 +836,62 @@ def replay(path):
     if kind == "law":
         sr, n, x, y, z = c["sr"], c["law"], fl(c["x"]), fl(c["y"]), fl(c["z"])
         l, rr = law_eval(SR[sr], n, _t0(x), _t0(y), _t0(z))
-        code = run_coq(LAW, [(sr, n, (wire(x), wire(y), wire(z)), (wire(float(l)), wire(float(rr))))], tag="replay")[0]
+        code = run_coq(LAW1, [(sr, n, (wire(x), wire(y), wire(z)), (wire(float(l)), wire(float(rr))))], tag="replay")[0]
         print("%s law '%s' at %r %r %r: lhs=%r rhs=%r; verdict code %d" % (SRNAME[sr], LAWNAME[n], x, y, z, float(l), float(rr), code))
+        return 1 if code else 0
+    if kind == "least":
+        sr, x, y = c["sr"], fl(c["x"]), fl(c["y"])
+        st = float(SR[sr].star(_t0(x)))
+        code = run_coq(LEAST, [(sr, wire(x), wire(y), wire(st))], tag="replay")[0]
+        print("%s: star(%r) = %r, candidate solution y = %r; verdict code %d (3 = y solves y = 1 + x*y exactly and star(x) > y)" % (SRNAME[sr], x, st, y, code))
+        return 1 if code else 0
+    if kind in ("log", "logstar"):
+        x = fl(c["x"])
+        if kind == "log":
+            op, y = c["op"], fl(c["y"])
+            rv = float(_apply(SR[1], op, _t0(x), _t0(y)))
+            val = (op, [log_wire(x), log_wire(y)], log_result(rv, x, y)); name = "LogSemiring.%s(%r, %r)" % (OPNAME[op], x, y)
+        else:
+            rv = float(SR[1].star(_t0(x)))
+            val = (3, [log_wire(x)], log_result(rv, x)); name = "LogSemiring.star(%r)" % x
+        code = run_coq(LOG, [val], tag="replay")[0]
+        print("%s = %r; verdict code %d (1 = outside the exp-reading interval of the carrier operation)" % (name, rv, code))
+        return 1 if code else 0
+    if kind == "from_int":
+        import torch
+        sr, n = c["sr"], int(c["n"])
+        rv = SR[sr].from_int(n).item() if c.get("rep") != "tensor" else SR[sr].from_int(torch.tensor([n]))[0].item()
+        if sr in (0, 2): code = run_coq(FROMINT, [(sr, n, wire(rv))], tag="replay")[0]
+        elif sr == 1: code = run_coq(LOG, [(4, [(1, Fraction(n))], log_result(rv))], tag="replay")[0]
+        else: code = run_coq(BOOLC, [(4, n, [], bool(rv))], tag="replay")[0]
+        print("%s.from_int(%d) = %r; verdict code %d" % (SRNAME[sr], n, rv, code))
+        return 1 if code else 0
+    if kind == "sum":
+        sr, xs = c["sr"], [fl(v) for v in c["xs"]]
+        rv = float(SR[sr].sum(_t(xs).reshape(1, len(xs)), 1)[0])
+        if sr in (0, 2): code = run_coq(SUM, [(sr, [wire(v) for v in xs], wire(rv))], tag="replay")[0]
+        else: code = run_coq(LOG, [(5, [log_wire(v) for v in xs], log_result(rv, *xs, k=8 * (len(xs) + 1)))], tag="replay")[0]
+        print("%s.sum(%r) = %r; verdict code %d" % (SRNAME[sr], xs, rv, code))
+        return 1 if code else 0
+    if kind == "bool" and c.get("op") in (0, 1, 2, 3):
+        import torch
+        op, xs = c["op"], [bool(v) for v in c["xs"]]
+        S = SR[3]
+        rv = bool(S.star(torch.tensor(xs[0]))) if op == 3 else bool((S.add, S.mul, S.sub)[op](torch.tensor(xs[0]), torch.tensor(xs[1])))
+        code = run_coq(BOOLC, [(op, 0, xs, rv)], tag="replay")[0]
+        print("BoolSemiring op %d on %r = %r; verdict code %d" % (op, xs, rv, code))
+        return 1 if code else 0
+    if kind in ("fbin", "fun"):
+        sr, x = c["sr"], fl(c["x"])
+        if kind == "fbin":
+            op, y = c["op"], fl(c["y"])
+            rv = float(_apply(SR[sr], op, _t0(x), _t0(y)))
+            code = run_coq(FBIN, [((4 if sr == 1 else sr // 2 * 3 + op), x, y, rv)], tag="replay")[0]
+            print("%s.%s(%r, %r) = %r (%s); bit-exact verdict code %d" % (SRNAME[sr], OPNAME[op], x, y, rv, float(rv).hex(), code))
+        else:
+            rv = float(SR[sr].star(_t0(x)))
+            code = run_coq(FUN, [(sr // 2, x, rv)], tag="replay")[0]
+            print("%s.star(%r) = %r (%s); bit-exact verdict code %d" % (SRNAME[sr], x, rv, float(rv).hex(), code))
         return 1 if code else 0
     if kind == "pt":
         import torch
